@@ -86,3 +86,57 @@ Definition ex_bp_ops : list op := [OSend PSend 7 7; OSend PTimeout 8 8; ORecv; O
 
 Example C04_bp_nonvacuous : let r := run 1000 b#"note" (init 1) ex_bp_ops in let it := fun x => to_json 1000 b#"note" (NeedsData (payload x)) in map snd (snd r) = [ROk; RTimeout (Complete (it 8%N)); RFrame (it 7%N); ROk; RFrame (it 8%N); RDone; RClosed (NeedsData (payload 9)); REnd] /\ received (snd r) = [it 7%N; it 8%N] /\ oklog (snd r) = [7%N; 8%N] /\ held (fst r) = [(9%N, NeedsData (payload 9))] /\ it 8%N = b#"{""jsonrpc"":""2.0"",""method"":""note"",""params"":{""subscription"":1000,""result"":8}}".
 Proof. vm_compute. repeat split. Qed.
+
+(* ==================================================================================================================
+   C04, connection-queue block (engine `connq`).  Model/ConnQueue.v: ONE connection's bounded outgoing queue (MethodSink
+   over a tokio mpsc of capacity cap = message_buffer_capacity) shared by any number of subscriptions and calls; a
+   send that finds the queue full WAITS in a first-come-first-served line; accept / reject / send parked there can be
+   CANCELLED by the handler (tokio::time::timeout / select!), after which the handler may return any closing value.
+   accept() is interpreted step by step from Gen/AcceptOrderGen.accept_steps (the order read from the source).
+   `ConnQueue.run cap base init ops` = final state and the reports of every step of ANY list of steps `ops`
+   (Subscribe, Acc, Rej, Send, Try, Cancel (with or without a closing value returned in the same poll), Ret, Unsub,
+   Call, W = the writer takes one frame, Close); subscription id of the h-th subscribe call = sid base h = base + h;
+   `frames s` = popped s ++ q s = everything that has been handed to the connection, in order; `OAcc h ROk` = accept
+   returned Ok(sink) to handler h (at once, or when the parked accept completed); `oklog h` = payloads of handler h's
+   send / try_send that reported Ok (at once or when the parked send completed), in that order.
+   ================================================================================================================== *)
+From JV Require Import Model.AcceptSteps Gen.AcceptOrderGen Model.ConnQueue Proofs.ConnQueueFacts.
+
+Theorem C04_cq_nothing_before_accept_response : forall cap base ops pre f post sd, ConnQueue.frames (fst (ConnQueue.run cap base ConnQueue.init ops)) = pre ++ f :: post -> ConnQueue.notif_sid f = Some sd -> exists c, In (ConnQueue.FSubOk c sd) pre.
+Proof. exact ConnQueueFacts.nothing_before_accept_response. Qed.
+Print Assumptions C04_cq_nothing_before_accept_response.
+
+Theorem C04_cq_never_accepted_is_silent : forall cap base ops h, ~ In (OAcc h ConnQueue.ROk) (concat (snd (ConnQueue.run cap base ConnQueue.init ops))) -> forall f, In f (ConnQueue.frames (fst (ConnQueue.run cap base ConnQueue.init ops))) -> ConnQueue.frame_sid f <> Some (ConnQueue.sid base h).
+Proof. exact ConnQueueFacts.never_accepted_is_silent. Qed.
+Print Assumptions C04_cq_never_accepted_is_silent.
+
+Theorem C04_cq_fifo_per_subscription : forall cap base ops h, ConnQueue.filter_map (ConnQueue.plain_item (ConnQueue.sid base h)) (ConnQueue.frames (fst (ConnQueue.run cap base ConnQueue.init ops))) = ConnQueue.oklog h (snd (ConnQueue.run cap base ConnQueue.init ops)).
+Proof. exact ConnQueueFacts.fifo_per_subscription. Qed.
+Print Assumptions C04_cq_fifo_per_subscription.
+
+Theorem C04_cq_bounded : forall cap base ops, length (ConnQueue.q (fst (ConnQueue.run cap base ConnQueue.init ops))) <= cap.
+Proof. exact ConnQueueFacts.bounded. Qed.
+Print Assumptions C04_cq_bounded.
+
+Theorem C04_cq_waits_only_when_full : forall cap base ops, let s := fst (ConnQueue.run cap base ConnQueue.init ops) in waiters s <> [] -> ConnQueue.closed s = false /\ length (ConnQueue.q s) = cap.
+Proof. exact ConnQueueFacts.waits_only_when_full. Qed.
+Print Assumptions C04_cq_waits_only_when_full.
+
+(* the scenario: capacity 1, the queue filled by the answer of an ordinary call (id 7); subscribe (call id 1, handle 0,
+   subscription id 1000); accept PARKS; the handler gives up and returns the closing value NotifErr(5) in the same
+   poll: the call is answered InternalError (that answer waits for a place), no frame ever names subscription 1000,
+   accept never reported Ok; the writer takes the call's answer, then the error response of the subscribe call *)
+Definition ex_cq_ops : list ConnQueue.op := [Call 7; Subscribe 1; Acc 0; Cancel 0 (Some (CErr 5)); W; W; W].
+
+Example C04_cq_cancelled_parked_accept : let r := ConnQueue.run 1 1000 ConnQueue.init ex_cq_ops in snd r = [[OCall 7 false (FResp 7)]; []; [OAcc 0 RParked]; [OCancel 0 ConnQueue.RDone; OCall 1 false (FInternal 1)]; [OFrame (FResp 7)]; [OFrame (FInternal 1)]; [OEmpty]] /\ ConnQueue.frames (fst r) = [FResp 7; FInternal 1] /\ map s_h (subs (fst r)) = [HGone] /\ map s_armed (subs (fst r)) = [false] /\ map s_ret (subs (fst r)) = [Some (CErr 5)] /\ render b#"note" (FInternal 1) = b#"{""jsonrpc"":""2.0"",""id"":1,""error"":{""code"":-32603,""message"":""Internal error""}}".
+Proof. vm_compute. repeat split. Qed.
+
+(* the same scenario when the writer is faster: accept completes, an item and the closing value are delivered after
+   the accepting response *)
+Example C04_cq_nonvacuous : let r := ConnQueue.run 1 1000 ConnQueue.init [Call 7; Subscribe 1; Acc 0; W; Send 0 3; W; Ret 0 (CErr 5); W; W] in ConnQueue.frames (fst r) = [FResp 7; FSubOk 1 1000; ConnQueue.FNotif 1000 3; FClosing 1000 true 5] /\ In (OAcc 0 ConnQueue.ROk) (concat (snd r)) /\ ConnQueue.oklog 0 (snd r) = [3%N] /\ render b#"note" (FClosing 1000 true 5) = b#"{""jsonrpc"":""2.0"",""method"":""note"",""params"":{""subscription"":1000,""error"":5}}".
+Proof. vm_compute. repeat split. repeat (first [left; reflexivity | right]). Qed.
+
+(* why the order of the two sends in accept() matters: with the subscribe call notified BEFORE the answer is handed to
+   the queue, the same steps deliver a closing notification for a subscription that was never accepted *)
+Example C04_cq_swapped_order_refuted : let r := run_with 1 1000 [ANotifyCall; ASendToSink; ATableInsert; ABuildSink] ConnQueue.init ex_cq_ops in ~ In (OAcc 0 ConnQueue.ROk) (concat (snd r)) /\ ConnQueue.frames (fst r) = [FResp 7; FClosing 1000 true 5] /\ head_ok [ANotifyCall; ASendToSink; ATableInsert; ABuildSink] = false /\ head_ok accept_steps = true.
+Proof. vm_compute. split; [|repeat split]. intro H. repeat (destruct H as [H | H]; [discriminate H|]). exact H. Qed.
